@@ -30,6 +30,7 @@ import (
 	"path/filepath"
 	"strconv"
 	"sync"
+	"unicode/utf8"
 
 	"github.com/opencontainers/go-digest"
 	specs "github.com/opencontainers/image-spec/specs-go"
@@ -815,6 +816,11 @@ func isContextDone(ctx context.Context) error {
 func validateReference(ref string) error {
 	if ref == "" {
 		return errdef.ErrMissingReference
+	}
+	// references are persisted in index.json: a string that is not valid UTF-8
+	// would come back as a different reference
+	if !utf8.ValidString(ref) {
+		return fmt.Errorf("%q: not valid UTF-8: %w", ref, errdef.ErrInvalidReference)
 	}
 
 	// TODO: may enforce more strict validation if needed.
